@@ -252,6 +252,7 @@ func H_Repaint() {
 	if vp.Choice("write", 2) == 0 {
 		z1.SetNReg(wadj, false, vp.F32("v"))
 	} else {
+		vp.Assume(wadj != adj) // the register holding the gradient descriptor itself is not overwritten
 		z1.SetCReg(wadj, false, ivg.RGBAColor(color.RGBA{0x20, 0x40, 0x60, 0xff})) // a fixed valid colour: the target register is what varies
 	}
 	s2 := z1.VPGet()
